@@ -25,9 +25,9 @@ A = decoders.J9_ALPHABET
 def cases(ctx):
     rng = ctx.rng
     yield {"kind": "exhaustive"}
-    for i in range(ctx.per_shard(ctx.pick(6000, 1500000))):
+    for i in range(ctx.per_shard(ctx.pick(60000, 2500000))):
         yield {"kind": "rt", "seed": rng.getrandbits(32)}
-    for i in range(ctx.per_shard(ctx.pick(4000, 400000))):
+    for i in range(ctx.per_shard(ctx.pick(40000, 800000))):
         yield {"kind": "malformed", "seed": rng.getrandbits(32)}
 
 
